@@ -13,6 +13,7 @@ CONSTANTS
   MaxMsgs = 3
   WithDNSFail = FALSE
   SlowSet = {FALSE}
+  CnSet = {"no"}
   Devs = {"PoolUnchecked"}
   Gen = FALSE
 VIEW View
